@@ -99,10 +99,17 @@ def main(tier, seed):
     rng = lib.rng_for(seed, PID)
     n_prog = 60 if tier == 'quick' else 1200
     terms, metas = [], []
-    for it in range(n_prog):
-        N = rng.randint(1, 4)
-        M = rng.choice([1, 1, 2, 3])
-        prog = progs.gen_prog(rng, ap, N=N, nout=M)
+    # every array-level block of the generator in every variant (one program each), besides the random compositions
+    kernel = [(nm, pr) for nm, pr in progs.kernel_programs(rng, ap, reps=1) if nm.split(':')[0].endswith('_block')] if tier == 'quick' else \
+             [(nm, pr) for nm, pr in progs.kernel_programs(rng, ap, reps=2) if nm.split(':')[0].endswith('_block')]
+    for it in range(n_prog + len(kernel)):
+        if it < n_prog:
+            N = rng.randint(1, 4)
+            M = rng.choice([1, 1, 2, 3])
+            prog = progs.gen_prog(rng, ap, N=N, nout=M)
+        else:
+            prog = kernel[it - n_prog][1]; N = prog['N']; M = 1
+            rep.count('kernel program', kernel[it - n_prog][0])
         text = progs.to_text(prog)
         rec_kind = rng.choice(['ndarray', 'UTPM'])
         x_rec = progs.rand_point(rng, N) if rec_kind == 'ndarray' else UTPM(progs.rand_utpm_data(rng, rng.randint(1, 3), rng.randint(1, 2), N))
@@ -115,7 +122,7 @@ def main(tier, seed):
             continue
         f1 = lambda x: progs.run(dict(prog, ret=prog['ret'][:1]), x, ap)[0]
         fv = lambda x: progs.run_vec(prog, x, ap)
-        for _pt in range(3):
+        for _pt in range(3 if it < n_prog else 1):
             x = progs.rand_point(rng, N); v = progs.rand_point(rng, N); w = progs.rand_point(rng, M)
             xt = x
             if _pt == 2:
